@@ -329,9 +329,23 @@ impl Lexer {
         cs_name_interner: &mut CsNameInterner,
     ) -> (token::CsName, State) {
         self.buffer.clear();
-        let first_raw_token = match self.raw_lexer.next(config) {
-            None => return (cs_name_interner.get_or_intern(""), State::NewLine),
-            Some(first_raw_token) => first_raw_token,
+        // If the name starts with a character in caret notation, the notation is reduced in place
+        // and the scan of the name starts again (TeX.2021.355). This is a loop rather than a
+        // recursive call because the number of consecutive reductions is only bounded by the
+        // length of the line, and each recursive call would consume stack space.
+        let first_raw_token = loop {
+            let first_raw_token = match self.raw_lexer.next(config) {
+                None => return (cs_name_interner.get_or_intern(""), State::NewLine),
+                Some(first_raw_token) => first_raw_token,
+            };
+            if matches!(first_raw_token.code, CatCode::Superscript)
+                && self
+                    .raw_lexer
+                    .maybe_apply_caret_notation(first_raw_token.char, true)
+            {
+                continue;
+            }
+            break first_raw_token;
         };
         match first_raw_token.code {
             CatCode::Letter => {
@@ -354,15 +368,6 @@ impl Lexer {
                         _ => break,
                     }
                 }
-            }
-            CatCode::Superscript => {
-                if self
-                    .raw_lexer
-                    .maybe_apply_caret_notation(first_raw_token.char, true)
-                {
-                    return self.read_control_sequence(config, cs_name_interner);
-                }
-                self.buffer.push(first_raw_token.char);
             }
             _ => {
                 self.buffer.push(first_raw_token.char);
